@@ -12,7 +12,7 @@ TRUSTED_BASE = [
 ]
 ASSUMPTIONS = [
     "exact tier: all payloads are small Gaussian integers so float32/float64 arithmetic is exact (entry bound 2^20 enforced by the generator)",
-    "Kernel, FFT, Jacobian, Hessian, matmat-defined operators are modelled as the oracle kind Gen (matrix supplied)",
+    "Kernel, Jacobian, Hessian, no_dispatch and matmat-defined operators are built for real (exact derivatives supplied with the map through the shim) and modelled as the oracle kind Gen (their matrix is an input of the model; what is modelled is the plumbing around them: default left product, densification, nesting); FFT is checked against the unitary DFT matrix numerically only",
 ]
 
 
@@ -131,6 +131,8 @@ def run(ctx):
         tree_cplx = any(d in T.CPLX for d in O.leaf_dts(t))
         if "sliced_drops_imag" in present and O.sliced_unsafe(t, case["dx"]):
             return False
+        if O.has_kind(t, ("Gen",)) and not set(O.leaf_dts(t) + [case["dx"]]) <= {"float64", "complex128"}:
+            return False   # product routines of Kernel / Jacobian / user matmat fix their own output dtype (out of the dtype model)
         if "kronsum_inplace_dtype" in present and O.has_kind(t, ("KronSum",)) and tree_cplx and case["dx"] not in T.CPLX:
             return False
         if "sliced_index_array_cpu" in present:
@@ -197,6 +199,23 @@ def run(ctx):
         if bad or i in failset or i in dfail:
             mism.append(dict(oracle_fail=bool(bad) or (i in dfail and bool(dbad)), case=c, got=o, failed_clauses=bad + (dbad if i in dfail else []),
                              model_disagrees=(i in failset), dtype_model_disagrees=(i in dfail)))
+    # FFT: unitary DFT matrix (irrational entries -> tolerance tier, independent numpy oracle only)
+    fft_checked = 0
+    try:
+        from cola import ops as _ops
+        for nf in range(1, ctx.budget(9, 17)):
+            F = np.exp(-2j * np.pi * np.outer(np.arange(nf), np.arange(nf)) / nf) / np.sqrt(nf)
+            A = _ops.FFT(nf, np.complex128)
+            X = (np.arange(nf * 2).reshape(nf, 2) - 1.5) * (1 + 0.5j)
+            XL = X.T.copy()
+            outs = {"to_dense": (np.asarray(A.to_dense()), F), "A@X": (np.asarray(A @ X), F @ X), "A@x": (np.asarray(A @ X[:, 0]), F @ X[:, 0]),
+                    "XL@A": (np.asarray(XL @ A), XL @ F), "A.T": (np.asarray(A.T.to_dense()), F.T), "A.H": (np.asarray(A.H.to_dense()), F.conj().T)}
+            for nm, (got, want) in outs.items():
+                fft_checked += 1
+                if got.shape != want.shape or not np.allclose(got, want, atol=1e-10):
+                    mism.append(dict(oracle_fail=True, case=f"FFT({nf}) {nm}", failed_clauses=["FFT operator differs from the unitary DFT matrix"]))
+    except Exception as e:
+        mism.append(dict(oracle_fail=True, case="FFT", failed_clauses=[f"raised {type(e).__name__}: {e}"]))
     distinct = len({core.digest(c["tree"]) for c in cases if O.nontrivial(c)})
     return dict(
         evaluations=len(cases), distinct_nontrivial=distinct,
@@ -204,6 +223,6 @@ def run(ctx):
              "non-trivial = depth>=2 or a structured leaf; distinct by tree hash" % ctx.budget(3, 4),
         samples=[dict(tree=c["tree"], X=c["X"], dx=c["dx"]) for c in cases[:2]],
         mismatches=mism, findings=fnd,
-        extra=dict(kind_histogram=O.histogram(cases), wide_cases=sum(1 for c in cases if 8 * c['m'] < c['n']), column_or_row_shapes=sum(1 for c in cases if 1 in (c['m'], c['n'])), compared_in_coq=len(coq_idx), dtype_clause_checked=dt_checked, dtype_deviations_explained_by_recorded_flags=dt_deviates, dtype_flag_vector=flv,
+        extra=dict(kind_histogram=O.histogram(cases), fft_checks=fft_checked, wide_cases=sum(1 for c in cases if 8 * c['m'] < c['n']), column_or_row_shapes=sum(1 for c in cases if 1 in (c['m'], c['n'])), compared_in_coq=len(coq_idx), dtype_clause_checked=dt_checked, dtype_deviations_explained_by_recorded_flags=dt_deviates, dtype_flag_vector=flv,
                    impl_exceptions=sum(1 for o in obs if not o.get("ok")),
                    complex_cases=sum(1 for c in cases if any(d in T.CPLX for d in O.leaf_dts(c["tree"])))))
